@@ -572,6 +572,9 @@ func c39UUIDGuards(c *eng.Ctx, r *ssa.Return, g []eng.Atom, flag *ssa.Phi) {
 		case flag != nil && a.V == ssa.Value(flag) && a.Pos:
 		case a.Via != "":
 			// facts imported from a verdict helper (e.g. isUUID) are part of the UUID test
+		case !a.Pos && a.EqLHS == "p0" && a.EqConst != "" && !strings.Contains(a.EqConst, "-"):
+			// «the name is not <a reserved word without a dash>», tested first: it
+			// excludes no dashed name, so every dashed name still reaches the UUID test
 		default:
 			// the verdict helper's own call is the UUID test when it only computes a verdict
 			if call, ok := a.V.(*ssa.Call); ok {
